@@ -206,7 +206,9 @@ func (d *D) Base(idx int, ctx *core.Ctx) *core.Scenario {
 		if ref, ok := reference("stdin.evy", base); ok && r.Chance(0.7) {
 			base = ref
 		}
-		switch r.Intn(6) {
+		switch r.Intn(7) {
+		case 6: // a byte order mark in front of otherwise formatted (or not) text, as some editors save it
+			base = "\ufeff" + base
 		case 0:
 			base = strings.ReplaceAll(base, "\n", "\r\n")
 		case 1:
@@ -228,9 +230,10 @@ func (d *D) Base(idx int, ctx *core.Ctx) *core.Scenario {
 		// several files on one command line in every pattern of formatted (F), unformatted (U) and
 		// unparsable (X) - plain files and archives mixed: the status of -c is about ALL of them, and
 		// what -w did to an earlier file must not depend on a later one
-		patterns := []string{"UF", "FU", "UFF", "FUF", "FFU", "XF", "FX", "UX", "XU", "FF", "UU", "UFU", "XFF", "FXF"}
+		patterns := []string{"UF", "FU", "UFF", "FUF", "FFU", "XF", "FX", "UX", "XU", "FF", "UU", "UFU", "XFF", "FXF", "BF", "FB", "B", "FBF"}
 		pat := patterns[(idx/13)%len(patterns)]
-		texts := map[byte]string{'F': "x := 1\nprint x\n", 'U': "x:=1\nprint   x\n", 'X': "x := \nprint )\n"}
+		// B: formatted text behind a byte order mark - not "in formatted form" (formatting it gives other bytes, or no program at all)
+		texts := map[byte]string{'F': "x := 1\nprint x\n", 'U': "x:=1\nprint   x\n", 'X': "x := \nprint )\n", 'B': "\ufeffx := 1\nprint x\n"}
 		sc.Files = nil
 		argv := []string{"fmt", []string{"-c", "-w"}[(idx/13/len(patterns)+idx)%2]}
 		for i := 0; i < len(pat); i++ {
